@@ -12,11 +12,12 @@ attributes, `assign`'s append / non-append matrix, `assign_at_index`, `unset_ind
 `brush-builtins/src/export.rs` (`process_decl`).
 
 The model mirrors the code *including its defects*:
-* `apply_assignment` with `required_scope = Command` accepts a binding found in *any* command scope,
-  so a nested `x=2 cmd` inside `x=1 f` overwrites the outer temporary binding;
-* `iter_exported` filters on `exported` before the shadowing test, so an exported binding hidden by a
-  non-exported local still reaches child processes;
 * an integer variable stores `parse::<i64>()` of the text (no arithmetic evaluation).
+(Repaired in /repo and mirrored here: readonly checks in `assign_at_index`/`unset_index`; prefix
+assignments only re-use a binding of their own command scope; a readonly variable cannot be hidden by
+a prefix assignment or — if global — by a local; locals inherit the export attribute; `declare -g`
+looks in the global scope only; `export name` records the attribute for a missing name; element 0 of
+a scalar; case attributes on element append; arrays are not exported.)
 
 Scopes are kept top of stack first.  Maps are association lists with unique keys; drivers sort them.
 Assumptions (not modelled): `set -a` (`export_variables_on_modification`) is off; dynamic values,
@@ -203,8 +204,10 @@ def Var.toAssoc (v : Var) : R :=
   | .indexed _ => (v, false)
   | val => ({ v with value := .assoc [(['0'], (val.str0).getD [])] }, true)
 
-def addInt (int : Bool) (old new : Str) : Str :=
-  if int then intToStr (parseI64 old + parseI64 new) else old ++ new
+/-- the append arm of `assign_at_index`: integers add, otherwise the case attribute is applied to
+the whole resulting element -/
+def addInt (int : Bool) (t : Transform) (old new : Str) : Str :=
+  if int then intToStr (parseI64 old + parseI64 new) else applyTransforms false t (old ++ new)
 
 /-- the tail of `assign_at_index`, once the value is an array -/
 def Var.storeAt (v : Var) (idx : Str) (val : Str) (append : Bool) : R :=
@@ -214,10 +217,10 @@ def Var.storeAt (v : Var) (idx : Str) (val : Str) (append : Bool) : R :=
     match indexKey m idx with
     | none => (v, false)
     | some key =>
-      let nv := if append then addInt v.integer ((getNat key m).getD []) x else x
+      let nv := if append then addInt v.integer v.transform ((getNat key m).getD []) x else x
       ({ v with value := .indexed (insNat key nv m) }, true)
   | .assoc m =>
-    let nv := if append then addInt v.integer ((getStr idx m).getD []) x else x
+    let nv := if append then addInt v.integer v.transform ((getStr idx m).getD []) x else x
     ({ v with value := .assoc (insStr idx nv m) }, true)
   | _ => (v, false)
 
@@ -402,10 +405,16 @@ def Env.modify (e : Env) (n : Str) (pol : Policy) (f : Var → R) : Option (Env 
   (modPol n pol f 0 e.scopes).map fun (s, ok) => ({ scopes := s }, ok)
 
 /-- `ShellEnvironment::unset_index` -/
+def Env.isScalar (e : Env) (n : Str) : Bool :=
+  match e.get n with
+  | some (_, v) => (match v.value with | .str _ => true | _ => false)
+  | none => false
+
 def Env.unsetIndex (e : Env) (n : Str) (idx : Str) : Env × Bool :=
-  match e.modify n .anywhere (fun v => v.unsetIndex idx) with
-  | some r => r
-  | none => (e, true)
+  if idx = ['0'] ∧ e.isScalar n then e.unset n      -- element 0 of a scalar is the scalar itself
+  else match e.modify n .anywhere (fun v => v.unsetIndex idx) with
+    | some r => r
+    | none => (e, true)
 
 /-- what the `updater` closure of `update_or_add` does (the call sites use only these) -/
 inductive Updater | nop | exp | unexport
@@ -439,20 +448,33 @@ wins (bindings that are not exported are skipped before the shadowing test). -/
 def exportedScopes : List Str → List Scope → List (Str × Var)
   | _, [] => []
   | seen, (_, m) :: r =>
-    let here := m.filter (fun e => e.2.exported && !seen.contains e.1)
+    let here := m.filter (fun e => e.2.exported && e.2.value.isSet && !seen.contains e.1)
     here ++ exportedScopes (seen ++ here.map (·.1)) r
 
 def Env.childEnv (e : Env) : List (Str × Str) :=
   (exportedScopes [] e.scopes).filterMap fun (n, v) =>
-    if v.value.isSet then some (n, (v.value.str0).getD []) else none
+    if v.value.isSet && !(v.value.isIndexed || v.value.isAssoc) then some (n, (v.value.str0).getD []) else none
 
 /-! ## `apply_assignment` (interp.rs) -/
+
+/-- the visible binding of `n` is readonly -/
+def Env.hidesReadonly (e : Env) (n : Str) : Bool :=
+  match e.get n with
+  | some (_, v) => v.readonly
+  | none => false
+
 
 /-- `apply_assignment(assignment, shell, params, export, required_scope, creation_scope)` with the
 name, optional (already evaluated) index and the expanded value. -/
 def Env.applyAssignment (e : Env) (n : Str) (idx : Option Str) (lit : Lit) (append exp : Bool)
     (required : Option Kind) (creation : Kind) : Env × Bool :=
-  let found : Option (Kind × Var) := e.get n
+  -- with a required scope only a binding in the current (top-most) scope qualifies
+  let found : Option (Kind × Var) :=
+    if required.isSome then
+      (match e.scopes with
+       | (k, m) :: _ => (mget m n).map (fun v => (k, v))
+       | [] => none)
+    else e.get n
   let usable := match found with
     | some (k, _) => required.isNone || required = some k
     | none => false
@@ -467,6 +489,7 @@ def Env.applyAssignment (e : Env) (n : Str) (idx : Option Str) (lit : Lit) (appe
     match e.modify n .anywhere f with
     | some r => r
     | none => (e, false)   -- unreachable
+  else if e.hidesReadonly n then (e, false)     -- a new binding must not hide a readonly variable
   else
     match idx, lit with
     | some _, .array _ => (e, false)
@@ -476,13 +499,15 @@ def Env.applyAssignment (e : Env) (n : Str) (idx : Option Str) (lit : Lit) (appe
     | none, .array items => e.add n { value := .indexed (updIndexedFrom [] items), exported := exp } creation
 
 /-- `execute_command`: push the command scope, then `apply_assignment(a, …, export = true,
-Some(Command), Command)` for each prefix assignment; the first failure stops (the `ScopeGuard`
-then pops the scope again and the command does not run). -/
+Some(Command), Command)` for each prefix assignment; an assignment refused because the variable
+is readonly is reported and skipped, and the command still runs (the only failure scalar prefix
+assignments have). -/
 def tempAssigns (e : Env) : List (Str × Lit) → Env × Bool
   | [] => (e, true)
   | (n, lit) :: r =>
     let (e', ok) := e.applyAssignment n none lit false true (some .command) .command
-    if ok then tempAssigns e' r else (e', false)
+    let (e'', ok') := tempAssigns e' r
+    (e'', ok && ok')
 
 def Env.pushTemp (e : Env) (items : List (Str × Lit)) : Env × Bool :=
   tempAssigns (e.push .command) items
@@ -533,6 +558,7 @@ def declExisting (fl : DeclFlags) (verb : Verb) (lit : Option Lit) (appendIdx : 
   if !ok1 then (v1, false) else
   let (v2, ok2) : R := if fl.a then v1.toIndexed else (v1, true)
   if !ok2 then (v2, false) else
+  if lit.isSome && v2.readonly then (v2, false) else   -- refused before any attribute is touched
   let v3 := fl.before v2
   let (v4, ok4) : R := match lit with
     | some l => v3.assign l appendIdx
@@ -544,12 +570,16 @@ def declExisting (fl : DeclFlags) (verb : Verb) (lit : Option Lit) (appendIdx : 
 def Env.declare (e : Env) (n : Str) (fl : DeclFlags) (verb : Verb) (lit : Option Lit) (appendIdx nameIsArray : Bool)
     (inFunc : Bool) : Env × Bool :=
   let createLocal := verb = .loc || (verb = .declare && inFunc && !fl.g)
-  let pol : Policy := if createLocal then .onlyCurrentLocal else .anywhere
+  let pol : Policy := if createLocal then .onlyCurrentLocal else if fl.g then .onlyGlobal else .anywhere
   match e.modify n pol (declExisting fl verb lit appendIdx) with
   | some r => r
   | none =>
+    -- a readonly global may not be hidden by a local
+    if createLocal && (match e.get n with | some (.global, v) => v.readonly | _ => false) then (e, false) else
     let ty : UnsetTy := if fl.a then .indexed else if fl.A then .assoc else if nameIsArray then .indexed else .untyped
-    let v1 := fl.before { value := .unset ty }
+    -- a new local inherits the export attribute of the variable it shadows
+    let inh : Bool := createLocal && (match e.get n with | some (_, v) => v.exported | none => false)
+    let v1 := fl.before { value := .unset ty, exported := inh }
     let (v2, ok2) : R := match lit with
       | some l => v1.assign l false
       | none => (v1, true)
@@ -562,7 +592,8 @@ def Env.declare (e : Env) (n : Str) (fl : DeclFlags) (verb : Verb) (lit : Option
 def Env.exportName (e : Env) (n : Str) (unexport : Bool) : Env × Bool :=
   match e.modify n .anywhere (fun v => ({ v with exported := !unexport }, true)) with
   | some r => r
-  | none => (e, true)
+  | none => if unexport then (e, true)
+            else e.add n { value := .unset .untyped, exported := true } .global   -- the attribute is recorded
 
 /-- `export NAME=value` / `export NAME+=value` (with `-n`: unexport) -/
 def Env.exportAssign (e : Env) (n : Str) (lit : Lit) (append unexport : Bool) : Env × Bool :=
